@@ -253,6 +253,10 @@ class Flow:
                 tag = peel_tag(src, e.slice.value, None)
             elif isinstance(e.slice, ast.Slice):
                 tag = slice_peel(sc, e)
+                if tag is None and self.complement_of_head(e, sc, seen):
+                    tag = "tail"
+                if tag is None and any(b is not None and not isinstance(b, ast.Constant) and not (isinstance(b, ast.UnaryOp) and isinstance(b.operand, ast.Constant)) for b in (e.slice.lower, e.slice.upper)):
+                    tag = "cut?"  # cut at a computed position that is not understood: which end it is, is not known
             return [l.with_tag(tag) for l in self._lv(e.value, sc, seen)]
         if isinstance(e, (ast.ListComp, ast.SetComp, ast.GeneratorExp)):
             # the elements of the result are the element expression over the iterated values
@@ -265,6 +269,73 @@ class Flow:
         if isinstance(e, ast.Call):
             return self._call(e, sc, seen)
         return [Leaf("other", e, (), None)]
+
+    def complement_of_head(self, e: ast.Subscript, sc: Scope, seen: frozenset[int] = frozenset()) -> bool:
+        """`X[len(P):]` where P is a prefix of X - X an untouched environ value, P that same value or what
+        right-peeling (rsplit / rpartition / `[:rfind]`) left of it, through copies: the remainder that, put behind P,
+        gives X back.  (A piece peeled off the right end in other words - computed once instead of accumulated.)"""
+        sl = e.slice
+        if not isinstance(sl, ast.Slice) or sl.upper is not None or sl.step is not None:
+            return False
+        lo = sl.lower
+        if not (isinstance(lo, ast.Call) and isinstance(lo.func, ast.Name) and lo.func.id == "len" and len(lo.args) == 1 and not lo.keywords and isinstance(lo.args[0], ast.Name)):
+            return False
+        lp = self._lv(lo.args[0], sc, seen)
+        lx = self._lv(e.value, sc, seen)
+        if not lp or not lx:
+            return False
+        def empty(l: Leaf) -> bool:  # the "" default of environ.get(key, ""): every prefix and remainder of it is ""
+            return l.kind == "const" and isinstance(l.node, ast.Constant) and l.node.value == "" and not l.ops
+
+        lx, lp = [l for l in lx if not empty(l)], [l for l in lp if not empty(l)]
+        keys = {l.key for l in lx}
+        return (
+            len(keys) == 1
+            and bool(lp)
+            and isinstance(e.value, ast.Name)
+            and all(l.kind == "environ" and not l.ops and not l.tags for l in lx)
+            and all(l.kind == "environ" and not l.ops and l.key in keys and l.tags <= {"head"} for l in lp)
+            and self._prefix_of(lo.args[0], e.value, sc, set())
+        )
+
+    def _prefix_of(self, p: ast.AST, x: ast.Name, sc: Scope, busy: set[int], depth: int = 0) -> bool:
+        """is the value of name `p` a prefix of the value of name `x` (as read at its place) - on every reaching
+        definition: a copy of x or of another prefix, or what right-peeling left of one (`q[:q.rfind(s)]`,
+        `q.rsplit(s, 1)[0]`, `q.rpartition(s)[0]`, by index or by unpacking)?  A definition met again on the way (the
+        loop that shortens the prefix) is taken to hold."""
+        if depth > 8 or not isinstance(p, ast.Name):
+            return False
+        pn, xn = sc.cfg.node_of(p), sc.cfg.node_of(x)
+        if pn is None or xn is None:
+            return False
+        defs = sc.rd.reaching(pn, p.id)
+        if p.id == x.id:
+            return bool(defs) and defs == sc.rd.reaching(xn, x.id)
+        if not defs:
+            return False
+        for d in defs:
+            if id(d) in busy:
+                continue
+            busy.add(id(d))
+            v = d.value
+            while isinstance(v, ast.NamedExpr):
+                v = v.value
+            src: ast.AST | None = None
+            if d.kind in ("assign", "walrus") and d.index is None:
+                if isinstance(v, ast.Name):
+                    src = v
+                elif isinstance(v, ast.Subscript) and isinstance(v.slice, ast.Slice) and slice_peel(sc, v) == "head":
+                    src = v.value
+                elif isinstance(v, ast.Subscript) and isinstance(v.slice, ast.Constant) and isinstance(v.slice.value, int) and peel_tag(v.value, v.slice.value, None) == "head":
+                    src = v.value.func.value  # type: ignore[attr-defined]
+            elif d.kind == "unpack" and d.index is not None:
+                par = getattr(d.target, "_parent", None)
+                arity = len(par.elts) if isinstance(par, (ast.Tuple, ast.List)) else None
+                if peel_tag(v, d.index, arity) == "head":
+                    src = v.func.value  # type: ignore[union-attr]
+            if src is None or not self._prefix_of(src, x, sc, busy, depth + 1):
+                return False
+        return True
 
     def _name(self, e: ast.Name, sc: Scope, seen: frozenset[int]) -> list[Leaf]:
         g = bound_in_enclosing_comp(e, sc.fn)
@@ -405,6 +476,9 @@ class Flow:
         (``convert`` -> ``_unquote_user``) and plain local aliases."""
         if depth > 6:
             return None
+        forced = self.__dict__.get("_forced_fq", {}).get(id(f))
+        if forced is not None:
+            return "fq", forced, None  # the function of an expanded functools.partial call (see `partial_call`)
         if isinstance(f, ast.Lambda):
             return "lambda", f, sc
         if isinstance(f, ast.Name):
@@ -451,6 +525,77 @@ class Flow:
             d = dotted(f)
             return ("fq", self.resolve(d, sc), None) if d else None
         return None
+
+    def partial_target(self, f: ast.AST, sc: Scope, depth: int = 0) -> tuple[ast.Call, t.Any, "Scope | None"] | None:
+        """`f` denotes `functools.partial(F, bound...)`: (that partial(...) call, the module it is written in, the
+        scope it is written in or None for module level).  Followed like `callable_target`: a local bound once to the
+        partial, a parameter bound to a callable argument, a module-level name of the package assigned once."""
+        if depth > 6:
+            return None
+        if isinstance(f, ast.Call):
+            if self.resolve(dotted(f.func), sc) == "functools.partial" and f.args and not isinstance(f.args[0], ast.Starred):
+                return f, (sc.module or self.module), sc
+            return None
+        if not isinstance(f, ast.Name):
+            return None
+        node = sc.cfg.node_of(f)
+        defs = sc.rd.reaching(node, f.id) if node is not None else frozenset()
+        if defs:
+            if len(defs) != 1:
+                return None
+            d = next(iter(defs))
+            if d.kind == "param" and f.id in sc.bind:
+                arg, asc = sc.bind[f.id]
+                return self.partial_target(arg, asc, depth + 1)
+            if d.kind == "assign" and d.index is None and isinstance(d.value, (ast.Name, ast.Call)):
+                return self.partial_target(d.value, sc, depth + 1)
+            return None
+        if node is None and f.id in sc.bind:
+            arg, asc = sc.bind[f.id]
+            return self.partial_target(arg, asc, depth + 1)
+        if sc.lookup_nested(f.id) is not None:
+            return None
+        p = sc.parent
+        while p is not None:
+            if f.id in p.bind:
+                arg, asc = p.bind[f.id]
+                return self.partial_target(arg, asc, depth + 1)
+            p = p.parent
+        fq = self.resolve(f.id, sc)
+        if fq and fq.startswith("werkzeug."):
+            mn, _, nm = fq.rpartition(".")
+            m_ = self.repo.modules.get(mn)
+            vals = m_.assigns.get(nm, []) if m_ is not None else []
+            if len(vals) == 1 and isinstance(vals[0], ast.Call) and self.repo.resolve(m_, dotted(vals[0].func) or "") == "functools.partial" and vals[0].args and not isinstance(vals[0].args[0], ast.Starred):
+                return vals[0], m_, None
+        return None
+
+    def partial_call(self, e: ast.Call, sc: Scope) -> ast.Call | None:
+        """the call `F(bound..., args...)` that `p(args...)` performs when `p` is `functools.partial(F, bound...)`;
+        None when `p` is no such partial - or when what is bound cannot be read at the place of the call (anything but
+        constants and module-level names of the module the call is written in)."""
+        cache = self.__dict__.setdefault("_partial_calls", {})
+        if id(e) in cache:
+            return cache[id(e)][0]
+        out: ast.Call | None = None
+        pt = self.partial_target(e.func, sc)
+        if pt is not None:
+            pc, mod, psc = pt
+            here = sc.module or self.module
+            bound = list(pc.args[1:]) + [k.value for k in pc.keywords]
+            names = [n for b in bound for n in ast.walk(b) if isinstance(n, ast.Name)]
+            plain = all(k.arg is not None for k in pc.keywords) and not any(isinstance(b, ast.Starred) for b in bound)
+            module_level = mod is here and all(n.id in mod.assigns or n.id in mod.imports or n.id in mod.functions for n in names) and not any(psc is not None and psc.rd.reaching(psc.cfg.node_of(n), n.id) for n in names if psc is not None and psc.cfg.node_of(n) is not None)
+            fq = self.repo.resolve(mod, dotted(pc.args[0]) or "", psc.li if psc is not None else None) if dotted(pc.args[0]) else None
+            if plain and fq and (not names or module_level):
+                fn = ast.Name(id="__partial_target__", ctx=ast.Load())
+                out = ast.Call(func=fn, args=list(pc.args[1:]) + list(e.args), keywords=list(pc.keywords) + list(e.keywords))
+                for n in (fn, out):
+                    ast.copy_location(n, e)
+                fn._parent, out._parent = out, getattr(e, "_parent", None)  # type: ignore[attr-defined]
+                self.__dict__.setdefault("_forced_fq", {})[id(fn)] = fq
+        cache[id(e)] = (out, e)  # keep e alive: the key is its id
+        return out
 
     def _is_receiver(self, name: str, sc: Scope) -> bool:
         top = sc
@@ -537,6 +682,9 @@ class Flow:
                 codec, errors, _ = self._codec_args(e)
                 op = Op(m, e, None, codec, errors)
                 return [l.with_op(op) for l in self._lv(f.value, sc, seen)]
+        pc = self.partial_call(e, sc)
+        if pc is not None:
+            return self._call(pc, sc, seen, index)  # p = partial(F, safe=...); p(x)  is  F(x, safe=...)
         tgt = self.callable_target(f, sc)
         d = dotted(f)
         if tgt is None:
@@ -1242,15 +1390,85 @@ class Concrete:
                 raise ConcreteRaise("AssertionError", st)
         elif isinstance(st, ast.Try):
             try:
-                self.block(st.body, env, m)
-            except ConcreteRaise as r:
-                raise NotConcrete(f"an exception ({r.what}) inside a try block is not followed", st)
-            self.block(st.orelse, env, m)
-            self.block(st.finalbody, env, m)
+                try:
+                    self.block(st.body, env, m)
+                except ConcreteRaise as r:
+                    h = self.handler_for(st, r, m)
+                    if h.name is not None:
+                        env[h.name] = Opaque(f"the caught {r.what}")
+                    self.block(h.body, env, m)
+                else:
+                    self.block(st.orelse, env, m)
+            finally:
+                # (a finally block that itself returns / raises replaces what is in flight, as in python)
+                self.block(st.finalbody, env, m)
         elif isinstance(st, ast.Match):
-            raise NotConcrete("match statement", st)
+            subject = self.plain(self.expr(st.subject, env, m), st.subject)
+            for case in st.cases:
+                bound: dict[str, t.Any] = {}
+                if self.matches(case.pattern, subject, bound, env, m):
+                    env.update(bound)
+                    if case.guard is None or self.truth(self.expr(case.guard, env, m), case.guard):
+                        self.block(case.body, env, m)
+                        break
         else:
             raise NotConcrete(f"statement `{type(st).__name__}`", st)
+
+    # the builtin exceptions the modelled operations raise, with their bases
+    _EXC_BASES = {
+        "IndexError": ("IndexError", "LookupError", "Exception", "BaseException"),
+        "KeyError": ("KeyError", "LookupError", "Exception", "BaseException"),
+        "LookupError": ("LookupError", "Exception", "BaseException"),
+        "ValueError": ("ValueError", "Exception", "BaseException"),
+        "ValueError (unpack)": ("ValueError", "Exception", "BaseException"),
+        "UnicodeError": ("UnicodeError", "ValueError", "Exception", "BaseException"),
+        "UnicodeDecodeError": ("UnicodeDecodeError", "UnicodeError", "ValueError", "Exception", "BaseException"),
+        "UnicodeEncodeError": ("UnicodeEncodeError", "UnicodeError", "ValueError", "Exception", "BaseException"),
+        "TypeError": ("TypeError", "Exception", "BaseException"),
+        "ZeroDivisionError": ("ZeroDivisionError", "ArithmeticError", "Exception", "BaseException"),
+        "StopIteration": ("StopIteration", "Exception", "BaseException"),
+        "AssertionError": ("AssertionError", "Exception", "BaseException"),
+    }
+
+    def handler_for(self, st: ast.Try, r: ConcreteRaise, m: t.Any) -> ast.ExceptHandler:
+        """the except clause that catches a builtin exception raised by a modelled operation inside the try body; the
+        exception propagates (re-raised) when none does; NotConcrete when that cannot be told."""
+        bases = self._EXC_BASES.get(r.what)
+        if bases is None:
+            raise NotConcrete(f"an exception ({r.what}) inside a try block is not followed", st)
+        for h in st.handlers:
+            if h.type is None:
+                return h
+            tps = h.type.elts if isinstance(h.type, ast.Tuple) else [h.type]
+            for tp in tps:
+                d = dotted(tp)
+                fq = self.repo.resolve(m, d) if d else None
+                nm = fq[9:] if fq and fq.startswith("builtins.") else None
+                if nm is None:
+                    raise NotConcrete(f"`except {ast.unparse(tp)[:40]}`: not a builtin exception class", h)
+                if nm in bases:
+                    return h
+        raise r
+
+    def matches(self, p: ast.AST, v: t.Any, bound: dict, env: dict, m: t.Any) -> bool:
+        """structural pattern matching on plain values: literals, dotted constants, `|`, captures / wildcard, sequences."""
+        if isinstance(p, ast.MatchValue):
+            return self.compare(ast.Eq(), v, self.expr(p.value, env, m), p)
+        if isinstance(p, ast.MatchSingleton):
+            return v is p.value
+        if isinstance(p, ast.MatchOr):
+            return any(self.matches(x, v, bound, env, m) for x in p.patterns)
+        if isinstance(p, ast.MatchAs):
+            if p.pattern is not None and not self.matches(p.pattern, v, bound, env, m):
+                return False
+            if p.name is not None:
+                bound[p.name] = v
+            return True
+        if isinstance(p, ast.MatchSequence) and not any(isinstance(x, ast.MatchStar) for x in p.patterns):
+            if not isinstance(v, (tuple, list)) or len(v) != len(p.patterns):
+                return False
+            return all(self.matches(x, y, bound, env, m) for x, y in zip(p.patterns, v))
+        raise NotConcrete(f"match pattern `{type(p).__name__}`", p)
 
     def assign(self, tg: ast.AST, v: t.Any, env: dict, m: t.Any) -> None:
         if isinstance(tg, ast.Name):
